@@ -17,6 +17,7 @@
 package db
 
 import (
+	"bytes"
 	"encoding/binary"
 	"fmt"
 	"os"
@@ -304,13 +305,15 @@ func readAttr(b *bolt.Bucket, attr *metadata.Attr) error {
 			if attr.Xattrs == nil {
 				attr.Xattrs = make(map[string][]byte)
 			}
-			attr.Xattrs[string(v)] = b.Get(bucketKeyXattrValue)
+			// A value returned by bbolt is only valid during the transaction (it points into the mapped file,
+			// which is re-mapped when the file grows), but the attributes are kept by the caller: copy it.
+			attr.Xattrs[string(v)] = bytes.Clone(b.Get(bucketKeyXattrValue))
 		case string(bucketKeyXattrsExtra):
 			if err := b.Bucket(k).ForEach(func(k, v []byte) error {
 				if attr.Xattrs == nil {
 					attr.Xattrs = make(map[string][]byte)
 				}
-				attr.Xattrs[string(k)] = v
+				attr.Xattrs[string(k)] = bytes.Clone(v)
 				return nil
 			}); err != nil {
 				return err
